@@ -1,4 +1,6 @@
 import TaskModel.Vars.Lemmas
+import TaskModel.Vars.World
+import TaskModel.Vars.CompileLemmas
 import TaskModel.Gen.VarLayers
 /-!
 # C11 — A task's meaning does not depend on what else ran in the same invocation
@@ -58,32 +60,31 @@ theorem evalDef_indep (w : World) (hs : EnvIndep w.shell) (dir : Str) (e : Env) 
     obtain ⟨a2, b2⟩ := dynamic_coherent w.shell hs c2 h2 (render e ps) (ov.getD dir) (shEnv w e)
     exact ⟨by rw [a1, a2], b1, b2⟩
 
-theorem evalBlock_indep (w : World) (hs : EnvIndep w.shell) (dir : Str) (defs : List (Name × VarDef))
+theorem evalBlock_indep (w : World) (hs : EnvIndep w.shell) (dirf : Env → Str) (defs : List (Name × VarDef))
     (e : Env) (c1 c2 : Cache) (h1 : Coherent w.shell c1) (h2 : Coherent w.shell c2) :
-    (evalBlock w dir defs e c1).1 = (evalBlock w dir defs e c2).1 ∧
-    Coherent w.shell (evalBlock w dir defs e c1).2 ∧ Coherent w.shell (evalBlock w dir defs e c2).2 := by
+    (evalBlock w dirf defs e c1).1 = (evalBlock w dirf defs e c2).1 ∧
+    Coherent w.shell (evalBlock w dirf defs e c1).2 ∧ Coherent w.shell (evalBlock w dirf defs e c2).2 := by
   induction defs generalizing e c1 c2 with
   | nil => exact ⟨rfl, h1, h2⟩
   | cons d ds ih =>
     obtain ⟨n, d⟩ := d
     simp only [evalBlock]
-    obtain ⟨a, b1, b2⟩ := evalDef_indep w hs dir e c1 c2 h1 h2 d
+    obtain ⟨a, b1, b2⟩ := evalDef_indep w hs (dirf e) e c1 c2 h1 h2 d
     rw [a]
     exact ih _ _ _ b1 b2
 
-theorem runLayers_indep (w : World) (hs : EnvIndep w.shell) (cx : Ctx) (ls : List Layer) (i : Nat)
-    (s1 s2 : St) (htd : s1.td = s2.td) (he : s1.env = s2.env)
+theorem runLayers_indep (w : World) (hs : EnvIndep w.shell) (cx : Ctx) (ls : List Layer)
+    (s1 s2 : St) (he : s1.env = s2.env)
     (h1 : Coherent w.shell s1.cache) (h2 : Coherent w.shell s2.cache) :
-    (runLayers w cx ls i s1).env = (runLayers w cx ls i s2).env ∧
-    Coherent w.shell (runLayers w cx ls i s1).cache := by
-  induction ls generalizing i s1 s2 with
+    (runLayers w cx ls s1).env = (runLayers w cx ls s2).env ∧
+    Coherent w.shell (runLayers w cx ls s1).cache := by
+  induction ls generalizing s1 s2 with
   | nil => exact ⟨he, h1⟩
   | cons l ls ih =>
     simp only [runLayers]
     have key := evalBlock_indep w hs
     apply ih
-    · simp only [stepLayer, htd, he]
-    · simp only [stepLayer, htd, he]
+    · simp only [stepLayer, he]
       exact (key _ l.defs s2.env s1.cache s2.cache h1 h2).1
     · simp only [stepLayer]
       exact (key _ l.defs s1.env s1.cache s1.cache h1 h1).2.1
@@ -97,7 +98,7 @@ theorem C11 (w : World) (hs : EnvIndep w.shell) (cx : Ctx) (base : Env) (layers 
     (c : Cache) (hc : Coherent w.shell c) :
     (getVariables w cx base layers c).env = (getVariables w cx base layers []).env ∧
     Coherent w.shell (getVariables w cx base layers c).cache :=
-  runLayers_indep w hs cx layers 0 _ _ rfl rfl hc (coherent_nil w.shell)
+  runLayers_indep w hs cx layers _ _ rfl hc (coherent_nil w.shell)
 
 /-- every cache reachable from the empty one by compilations is coherent -/
 theorem C11_reachable_coherent (w : World) (hs : EnvIndep w.shell) :
@@ -133,7 +134,7 @@ the environment (`envShell` prints variable 0) is served from the entry a task w
 value of that variable created (same directory, same command text). -/
 theorem C11_full_counterexample : ¬ C11_full := by
   intro h
-  have := h ⟨envShell, []⟩ ⟨[], [], 3⟩ [] lyB [(⟨[], [], 3⟩, [], lyA)]
+  have := h ⟨envShell, [], false⟩ ⟨[], [], []⟩ [] lyB [(⟨[], [], []⟩, [], lyA)]
   revert this
   decide
 
@@ -145,9 +146,178 @@ theorem cache_key_ok :
 
 /-- non-vacuity: a shell that depends on command and directory only, two tasks sharing a command text -/
 private def dirShell : Shell := fun cmd dir _ => cmd ++ dir
-example : EnvIndep (⟨dirShell, []⟩ : World).shell := fun _ _ _ _ => rfl
-example : get (getVariables ⟨dirShell, []⟩ ⟨[1], [.text [7]], 0⟩ [] [⟨.taskVars, [(5, .sh [.text [9]] none)]⟩]
-      (getVariables ⟨dirShell, []⟩ ⟨[1], [.text [8]], 0⟩ [] [⟨.taskVars, [(5, .sh [.text [9]] none)]⟩] []).cache).env 5
+example : EnvIndep (⟨dirShell, [], false⟩ : World).shell := fun _ _ _ _ => rfl
+example : get (getVariables ⟨dirShell, [], false⟩ ⟨[1], [.text [7]], []⟩ [] [⟨.taskVars, [(5, .sh [.text [9]] none)]⟩]
+      (getVariables ⟨dirShell, [], false⟩ ⟨[1], [.text [8]], []⟩ [] [⟨.taskVars, [(5, .sh [.text [9]] none)]⟩] []).cache).env 5
     = [9, 1, 47, 7] := by decide
+
+/-! ## the file system
+
+"… depend only on its definition, the call variables, the Taskfile tree, the process environment
+AND THE FILE SYSTEM".  The commands of tasks change the file system; an `sh:` variable of a
+later task may read what they wrote.  `Vars.World`: the oracle gets a world state, histories
+interleave compilations and command effects.  The statement: a task compiled after any
+history gets what it gets when compiled ALONE IN THE WORLD THE HISTORY LEFT (a fresh
+invocation started now).  False of the code: the cache serves what an earlier compilation
+read before a command rewrote the file (`task a b` vs `task b`; open finding
+`C11-dynamic-cache-ignores-files`, same root as `C11-dynamic-cache-ignores-env`). -/
+
+def C11_fs_full : Prop :=
+  ∀ (ws : WorldS) (σ0 : Sigma) (hist : List Ev) (cx : Ctx) (base : Env) (layers : List Layer),
+    (getVariables (ws.at (runHist ws hist (σ0, [])).1) cx base layers (runHist ws hist (σ0, [])).2).env =
+    (getVariables (ws.at (runHist ws hist (σ0, [])).1) cx base layers []).env
+
+private def lyCat : List Layer := [⟨.taskVars, [(5, .sh [.text [102]] none)]⟩]      -- V: {sh: cat f}
+private def cx0 : Ctx := ⟨[100], [], []⟩
+
+/-- **Counterexample**: task `a` (`V: {sh: cat f}`) is compiled, its command rewrites `f`, task `b` (same
+`sh:` text, same directory) is compiled: `b` gets the OLD content; alone it would get the new one. -/
+theorem C11_fs_full_counterexample : ¬ C11_fs_full := by
+  intro h
+  have := h ⟨catShell, [], false⟩ [([100, 47, 102], [111])]
+    [.compile cx0 [] lyCat, .effect (writeFile [100, 47, 102] [110])] cx0 [] lyCat
+  revert this
+  decide
+
+/-- a command whose effect no `sh:` command can see -/
+def Invisible (ws : WorldS) (f : Sigma → Sigma) : Prop := ∀ cmd dir e σ, ws.shell cmd dir e (f σ) = ws.shell cmd dir e σ
+
+theorem coherent_effect (ws : WorldS) (f : Sigma → Sigma) (hf : Invisible ws f) (σ : Sigma) (c : Cache)
+    (hc : Coherent (ws.at σ).shell c) : Coherent (ws.at (f σ)).shell c := by
+  intro dir cmd v hv
+  have := hc dir cmd v hv
+  simp only [WorldS.at] at this ⊢
+  rw [hf]; exact this
+
+theorem runHist_coherent (ws : WorldS) (henv : ∀ σ, EnvIndep (ws.at σ).shell) :
+    ∀ (hist : List Ev), (∀ f, Ev.effect f ∈ hist → Invisible ws f) → ∀ (s : Sigma × Cache),
+      Coherent (ws.at s.1).shell s.2 → Coherent (ws.at (runHist ws hist s).1).shell (runHist ws hist s).2 := by
+  intro hist
+  induction hist with
+  | nil => intro _ s hs; exact hs
+  | cons ev r ih =>
+    intro hinv s hs
+    cases ev with
+    | compile cx base ls =>
+      simp only [runHist]
+      apply ih (fun f hf => hinv f (List.mem_cons_of_mem _ hf))
+      exact (C11 (ws.at s.1) (henv s.1) cx base ls s.2 hs).2
+    | effect f =>
+      simp only [runHist]
+      apply ih (fun g hg => hinv g (List.mem_cons_of_mem _ hg))
+      exact coherent_effect ws f (hinv f List.mem_cons_self) s.1 s.2 hs
+
+/-- **C11 with the file system, partial**: along every history whose command effects are invisible to the
+`sh:` commands (and whose `sh:` commands do not read their environment), a task resolves to what it
+resolves to alone in the world the history left. -/
+theorem C11_fs_partial (ws : WorldS) (henv : ∀ σ, EnvIndep (ws.at σ).shell) (σ0 : Sigma) (hist : List Ev)
+    (hinv : ∀ f, Ev.effect f ∈ hist → Invisible ws f) (cx : Ctx) (base : Env) (layers : List Layer) :
+    (getVariables (ws.at (runHist ws hist (σ0, [])).1) cx base layers (runHist ws hist (σ0, [])).2).env =
+    (getVariables (ws.at (runHist ws hist (σ0, [])).1) cx base layers []).env :=
+  (C11 _ (henv _) cx base layers _
+    (runHist_coherent ws henv hist hinv (σ0, []) (coherent_nil _))).1
+
+/- non-vacuity: the `cat` oracle ignores its environment; an effect on ANOTHER file is invisible to `cat f`
+only if nothing reads it — here: a history whose effect writes a file outside every directory read -/
+example : ∀ σ, EnvIndep ((⟨catShell, [], false⟩ : WorldS).at σ).shell := fun _ _ _ _ _ => rfl
+example : histEnvs ⟨catShell, [], false⟩ [.compile cx0 [] lyCat, .effect (writeFile [100, 47, 102] [110]), .compile cx0 [] lyCat]
+    ([([100, 47, 102], [111])], []) = [[(5, [111])], [(5, [111])]] := by decide     -- the model mirrors the stale read
+example : histEnvs ⟨catShell, [], false⟩ [.effect (writeFile [100, 47, 102] [110]), .compile cx0 [] lyCat]
+    ([([100, 47, 102], [111])], []) = [[(5, [110])]] := by decide
+
+/-! ## the directory clause: "a dynamic (sh:) variable is evaluated in the task's own directory"
+
+The task's own directory is the compiled task's `Dir` — the `dir:` template over the FINAL
+variables, `~` expanded (`taskDirOver cx final`): that is where its commands run.  An `sh:`
+variable of the included-Taskfile or task site runs in `siteDirf cx s e`, the same expression
+over the variables `e` resolved when the definition is reached (fix cd73a37; before,
+over what the global and include-statement layers had resolved, unexpanded).  The clause
+holds whenever no definition from that point on changes a name the `dir:` refers to; at
+full strength it is circular (a `dir:` that refers to a variable defined after, or by, the
+`sh:` variable itself), which no evaluation order can satisfy. -/
+
+def refsOf : List Part → List Name
+  | [] => []
+  | .text _ :: r => refsOf r
+  | .ref n :: r => n :: refsOf r
+
+theorem render_congr (e1 e2 : Env) (ps : List Part) (h : ∀ n ∈ refsOf ps, get e1 n = get e2 n) : render e1 ps = render e2 ps := by
+  induction ps with
+  | nil => rfl
+  | cons p r ih =>
+    cases p with
+    | text t => simp only [render]; rw [ih (fun n hn => h n (by simpa [refsOf] using hn))]
+    | ref n =>
+      simp only [render]
+      rw [h n (by simp [refsOf]), ih (fun n hn => h n (by simp [refsOf, hn]))]
+
+/-- the environment in which the definition `(m, d)` of site `s` is reached (task compiled alone) -/
+def envAt (w : World) (cx : Ctx) (base : Env) (defs : Site → Defs) (s : Site) (dpre : Defs) : Env :=
+  (evalBlock w (siteDirf cx s) dpre (stateBefore w cx base defs s).env (stateBefore w cx base defs s).cache).1
+
+/-- the clause for one `sh:` definition of a task-dir site: it runs where the task's commands run -/
+def DirClauseAt (w : World) (cx : Ctx) (base : Env) (defs : Site → Defs) (s : Site) (dpre : Defs) : Prop :=
+  siteDirf cx s (envAt w cx base defs s dpre) = taskDirOver cx (getVariables w cx base (layersOf defs) []).env
+
+def C11_dir_clause_full : Prop :=
+  ∀ (w : World) (cx : Ctx) (base : Env) (defs : Site → Defs) (s : Site) (dpre dpost : Defs) (m : Name) (ps : List Part),
+    s.inTaskDir = true → defs s = dpre ++ (m, .sh ps none) :: dpost → DirClauseAt w cx base defs s dpre
+
+private def shD : Shell := fun cmd dir _ => cmd ++ [64] ++ dir
+private def defsCirc : Site → Defs
+  | .taskVars => [(1, .sh [.text [75]] none), (2, .lit [.text [115]])]      -- P: {sh: K}, W: s   with dir: '{{.W}}'
+  | _ => []
+
+/-- **Counterexample** (circular by construction): `dir: '{{.W}}'`, `vars: {P: {sh: …}, W: s}` — `P` is reached
+before `W` exists. -/
+theorem C11_dir_clause_counterexample : ¬ C11_dir_clause_full := by
+  intro h
+  have := h ⟨shD, [], false⟩ ⟨[114], [.ref 2], []⟩ [] defsCirc .taskVars [] [(2, .lit [.text [115]])] 1 [.text [75]] rfl rfl
+  revert this
+  unfold DirClauseAt
+  decide
+
+/-- **Partial**: the clause holds for an `sh:` definition when nothing from that definition on (the rest of
+its block, the higher sites) defines a name the task's `dir:` refers to. -/
+theorem C11_dir_clause_partial (w : World) (cx : Ctx) (base : Env) (defs : Site → Defs) (s : Site) (dpre dpost : Defs)
+    (m : Name) (d : VarDef) (hs : s.inTaskDir = true) (hdef : defs s = dpre ++ (m, d) :: dpost)
+    (hrest : ∀ n ∈ refsOf cx.taskDirTpl, n ∉ names ((m, d) :: dpost))
+    (hafter : ∀ n ∈ refsOf cx.taskDirTpl, ∀ s' ∈ sitesAfter s, n ∉ names (defs s')) :
+    DirClauseAt w cx base defs s dpre := by
+  unfold DirClauseAt
+  simp only [siteDirf, hs, if_true, taskDirOver]
+  congr 2
+  apply render_congr
+  intro n hn
+  -- the final value of n is its value when (m, d) is reached
+  rw [layersOf_split defs s]
+  simp only [getVariables]
+  rw [runLayers_append]
+  simp only [runLayers]
+  have hpost : ∀ l ∈ (sitesAfter s).map (lay defs), n ∉ names l.defs := by
+    intro l hl
+    simp only [List.mem_map] at hl
+    obtain ⟨s', hs', rfl⟩ := hl
+    exact hafter n hn s' hs'
+  rw [runLayers_frame _ _ _ _ _ hpost]
+  simp only [stepLayer, lay, hdef, envAt, stateBefore]
+  rw [evalBlock_append, evalBlock_frame _ _ _ _ _ _ (hrest n hn)]
+
+/-- the rule before the repair, on the audit's reproduction: `dir: '{{.W}}'` with `W` passed in the call —
+the directory was resolved after the include-statement layer (`W` unknown: the root), the commands ran in `sub` -/
+theorem C11_dir_old_rule_counterexample :
+    let cx : Ctx := ⟨[114], [.ref 2], []⟩
+    let defs : Site → Defs := fun s => match s with
+      | .callVars => [(2, .lit [.text [115]])] | .taskVars => [(1, .sh [.text [75]] none)] | _ => []
+    let oldDir := joinDir cx.rootDir (render (stateBefore ⟨shD, [], false⟩ cx [] defs .includedTaskfileVars).env cx.taskDirTpl)
+    let final := (getVariables ⟨shD, [], false⟩ cx [] (layersOf defs) []).env
+    oldDir = [114] ∧ taskDirOver cx final = [114, 47, 115] ∧ get final 1 = [75, 64, 114, 47, 115] := by decide
+
+/- non-vacuity of the partial theorem: the same task, `W` from the call: the clause holds for `P` -/
+example : DirClauseAt ⟨shD, [], false⟩ ⟨[114], [.ref 2], []⟩ []
+    (fun s => match s with | .callVars => [(2, .lit [.text [115]])] | .taskVars => [(1, .sh [.text [75]] none)] | _ => []) .taskVars [] := by
+  unfold DirClauseAt; decide
+-- `dir: '~'`: expanded for the `sh:` variable as for the commands
+example : get (getVariables ⟨shD, [], false⟩ ⟨[114], [.text [126]], [47, 104]⟩ [] [⟨.taskVars, [(1, .sh [.text [75]] none)]⟩] []).env 1 = [75, 64, 47, 104] := by decide
 
 end Props.C11
